@@ -157,12 +157,25 @@ class Receive(WireUnit):
         T = self.target
         exc = pdu = content = None
         before = dict(mproc.fields)
+        reads = {"n": 0}
+
+        def count_reads(i, c, a, k):
+            reads["n"] += 1
+            return NotImplemented
+        rt.hooks["puresnmp.pdu:PDU.decode_raw"] = count_reads
+        self.x.decode_counts.clear()
         try:
             pdu = interp.call(rt.getattr(interp, mproc, "decode"), [raw, creds], {})
             content = rt.getattr(interp, pdu, "value")
         except PyExc as pe:
             exc = pe.obj
         self.frame_c20(interp, mproc, before, T)
+        # cost (C20): x690 decodes lazily and does not cache. One read of a PDU (one PDU.decode_raw) must walk the
+        # binding list, and each binding, once - a bound that does not grow with the number of bindings.
+        vbl = raw.content.parts[2].content.parts[3]
+        walked = [self.x.decode_counts.get(id(t), 0) for t in [vbl] + list(vbl.content.parts)]
+        ctx.check(oname("C20", "puresnmp.pdu:PDU.decode_raw", "cost", "binding-list-and-bindings-are-walked-once-per-read-of-the-PDU"),
+                  max(walked, default=0) <= max(reads["n"], 1))
         if not self.error:
             ctx.check(oname("C06", T, "ensures", "a-well-formed-response-is-accepted"), exc is None)
             if exc is not None:
